@@ -450,6 +450,7 @@ func pipeRun(args []string) error {
 	limit := fs.Int("limit", 0, "")
 	keep := fs.Bool("keep", false, "")
 	alt := fs.Bool("alt", true, "")
+	mainRun := fs.Bool("main", true, "")
 	repeat := fs.Int("repeat", 0, "")
 	orders := fs.String("orders", "", "'|'-separated VERIF_ORDER values")
 	subcmds := fs.String("subcmds", "", "'|'-separated extra sub-commands")
@@ -465,7 +466,7 @@ func pipeRun(args []string) error {
 		cases = cases[:*limit]
 	}
 	r := &runner{gleece: *gleece, repo: *repo, timeout: time.Duration(*timeout) * time.Second}
-	plan := pipePlan{Main: true, Alt: *alt, Repeat: *repeat, Prebuild: *prebuild, Validate: *validate}
+	plan := pipePlan{Main: *mainRun, Alt: *alt, Repeat: *repeat, Prebuild: *prebuild, Validate: *validate}
 	if *orders != "" {
 		plan.Orders = strings.Split(*orders, "|")
 	}
